@@ -438,3 +438,28 @@ def hostile_streams(env):
     return dict(name='hostile_streams', validates='that %d kinds of stream-level misbehaviour of a connected peer (silent, truncated, garbage, huge length prefix, reset, stop, unidirectional stream, datagram, 30 abandoned streams, a slow handler in flight) leave well-formed RPCs on the same connection and from another peer served promptly'
                 % len(got.get('steps', [])), cases=len(got.get('steps', [])), failed=fails, ok=not fails, props=['C06'],
                 clause='while a misbehaving peer\'s connection stays open, well-formed RPCs on its other streams and RPCs with other peers keep succeeding')
+
+
+NETWORK_NAMES = dict(a1=('net-a', None), a2=('net-a', None), b1=('net-b', None), ab=('net-a', 'net-b'), ba=('net-b', 'net-a'))
+
+
+def network_names(env):
+    """C14 on real networks: every ordered pair of five networks (two named net-a, one net-b, one net-a accepting net-b as alternate, one the
+    other way round): a connection is established exactly when the dialer's PRIMARY name is one the listener accepts"""
+    got = _run('network_names', {}, env, timeout=240)
+    fails = []
+    if got.get('panicked'):
+        fails.append(dict(scenario='network_names', args={}, expected=dict(note='no panic'), observed=got))
+    pairs = got.get('pairs') or []
+    for pr in pairs:
+        dn, da = NETWORK_NAMES[pr['dialer']]
+        ln, la = NETWORK_NAMES[pr['listener']]
+        want = dn in (ln, la)
+        if pr['connect_ok'] != want or pr['either_lists_the_other'] != want or pr['rpc_ok'] != want:
+            fails.append(dict(scenario='network_names', args=dict(dialer=dict(name=dn, alternate=da), listener=dict(name=ln, alternate=la)),
+                              expected=dict(connect_ok=want, either_lists_the_other=want, rpc_ok=want), observed=pr))
+    if not fails and len(pairs) != 20:
+        raise Undecided('network_names scenario reported %d pairs' % len(pairs))
+    return dict(name='network_names', validates='on real networks (TLS with SNI resolution in rustls and name matching in webpki, which no contract covers): all 20 ordered pairs of 5 networks with primary / alternate names',
+                cases=len(pairs), failed=fails, ok=not fails, props=['C14'],
+                clause='two endpoints connect exactly when the dialer\'s primary network name is one the listener accepts (its primary or alternate name); endpoints of different networks never connect in either direction')
